@@ -10,6 +10,8 @@ import LfsModel.Creds
 import LfsModel.Config
 import LfsModel.RedirectModel
 import LfsModel.Download
+import LfsModel.DownloadAlt
+import LfsModel.DownloadConc
 import LfsModel.TQTrace
 import LfsModel.Backoff
 import LfsModel.FilterProcess
@@ -262,6 +264,35 @@ def c02 : List String → String
         | .fail true false => "fail-retriable"
         | .fail false _ => "fail"
       s!"{o} part={shaOpt fs.part} final={shaOpt fs.final}"
+    | _, _, _, _ => "bad-op"
+  | ["custom", oid, final, msgs] =>
+    let parseMsg (t : String) : Option DlAlt.Msg :=
+      match t.splitOn "/" with
+      | ["u"] => some .unreadable
+      | ["o"] => some .other
+      | ["p", ok] => some (.progress (ok == "1"))
+      | ["c", ok, err, file] => (unhexOpt file).map fun f => .complete (ok == "1") (err == "1") f
+      | _ => none
+    let ms? := if msgs == "-" then some [] else (msgs.splitOn ",").mapM parseMsg
+    match unhexOpt final, ms? with
+    | some f, some ms =>
+      let (res, fin) := DlAlt.customRun Sha256.hexDigest oid.toUTF8.toList ms f
+      let o := match res with | .ok => "ok" | _ => "fail"
+      s!"{o} final={shaOpt fin}"
+    | _, _ => "bad-op"
+  | ["ssh", oid, final, conn, status, sizes, data, rerr] =>
+    let parseSize (t : String) : Option (Option Int) :=
+      if t == "bad" then some none else t.toInt?.map some
+    let sz? := if sizes == "-" then some [] else (sizes.splitOn ",").mapM parseSize
+    match unhexOpt final, status.toNat?, sz?, unhex data with
+    | some f, some st, some sz, some d =>
+      let (res, fin) := DlAlt.sshRun Sha256.hexDigest oid.toUTF8.toList
+        { connErr := conn == "1", status := st, sizeArgs := sz, data := d, readErr := rerr == "2" } f
+      let o := match res with
+        | .ok => "ok"
+        | .fail true _ => "fail-retriable"
+        | .fail false _ => "fail"
+      s!"{o} final={shaOpt fin}"
     | _, _, _, _ => "bad-op"
   | _ => "bad-op"
 
